@@ -250,7 +250,7 @@ def generate(rng, tier, i):
     N, T, F = _sizes(rng, tier, cls)
     lengths = _lengths(rng, N, T, cls)
     cfg = _cfg(rng, T, F, cls)
-    kinds = ["uniform", "positive", "ints", "wide"]
+    kinds = ["uniform", "positive", "ints", "wide", "huge_alternating"]
     case = {
         "class": cls, "N": N, "T": T, "F": F, "lengths": lengths, "cfg": cfg,
         "feat_kind": rng.choice(kinds), "feat_seed": rng.randrange(2 ** 31),
@@ -426,6 +426,11 @@ def _feats32(case):
         return torch.randint(-3, 4, shape, generator=g).float()
     if kind == "wide":
         return torch.randn(shape, generator=g) * 1e3
+    if kind == "huge_alternating":
+        # finite values at the edge of single precision, opposite signs on neighbouring frames: any
+        # resampling that forms a difference or a sum of neighbours overflows
+        sign = torch.where(torch.arange(shape[1]) % 2 == 0, 1.0, -1.0).view(1, -1, 1)
+        return sign * (2.9e38 + 0.4e38 * torch.rand(shape, generator=g))
     x = torch.rand(shape, generator=g) * 2 - 1
     if kind == "special":
         vals = torch.tensor([float("inf"), float("-inf"), float("nan"), -0.0, 3e38, 1e-42, 0.0])
